@@ -187,6 +187,27 @@ def oracle(ctx, fn, days, years):
             if want > 60 and got != ('ok', want):
                 ctx.violation(dict(call='edate', args=[n, k]), "EDATE does not shift by whole months",
                               impl=got, expected=want)
+    # EDATE from the last days of a month into every February nearby (leap and non-leap targets
+    # in years other than the start year: the clip must use the TARGET month's length)
+    import calendar
+    for y in (1999, 2000, 2001, 2003, 2004, 2019, 2020, 2023, 2024, 2099, 2100):
+        for m in range(1, 13):
+            for d in (28, 29, 30, 31):
+                if d > calendar.monthrange(y, m)[1]:
+                    continue
+                n = (dt.date(y, m, d) - ZERO).days
+                for j in (-1, 0, 1, 2):
+                    k = (2 - m) + 12 * j
+                    ty = y + j
+                    if not (1901 <= ty <= 9999):
+                        continue
+                    dd = min(d, calendar.monthrange(ty, 2)[1])
+                    want = (dt.date(ty, 2, dd) - ZERO).days
+                    got = run_impl(fn['edate'], n, k)
+                    ctx.count(('edate-feb', y, m, d, j), kind='oracle-edate-feb')
+                    if got != ('ok', want):
+                        ctx.violation(dict(call='edate', args=[n, k]), "EDATE does not shift by whole months",
+                                      impl=got, expected=want)
     # YEARFRAC symmetric
     for _ in range(ctx.n(400, 6000)):
         a, b = ctx.rng.randrange(0, MAXDAY + 1), ctx.rng.randrange(0, MAXDAY + 1)
